@@ -17,12 +17,12 @@ def make_cases(chk):
     quick = chk.tier == "quick"
     cases = []
     shapes = gen.shapes_upto(2, 2) + list(gen.shapes_exact(3, 2))
-    extra = 60 if quick else 1500
+    extra = 60 if quick else 5000
     for i in range(len(shapes) + extra):
         if i < len(shapes):
             sh = shapes[i]
         else:
-            sh = gen.random_shape(rng, rng.choice([3, 4, 4]), 2, total=rng.random() < 0.5)
+            sh = gen.random_shape(rng, rng.choice([3, 4, 4] if quick else [3, 4, 4, 5]), 2, total=rng.random() < 0.5)
         n = rng.choice([1, 2, 2, 3])
         pool = [gen.nonzero_vec(rng, n, pzero=0.3) for _ in range(2)]
 
